@@ -30,7 +30,7 @@ def run(rep, tier, seed):
     rep.cov["teeth_counterexamples_found"] = teeth
     # the single-valued predictions: Load is a function in the specification (MC_C01 and MC_C07 explorations)
     n = 2 if tier == "quick" else 3
-    c1 = loadcheck.explore(rep, "MC_C01", n, emit=False, invariants=["RoundTrip"], props=[], extra_consts="CONSTRAINT EmitRT\n",
+    c1 = loadcheck.explore(rep, "MC_C01", n, emit=False, invariants=["RoundTrip"], props=[], extra_consts="CONSTRAINT EmitRT\n", prelude="Pre",
                            label="MC_C01 scripts up to %d items (templates with overlapping names, several registers per argument)" % n)
     c1 = [c for c in c1 if interesting(c)]
     cfg = loadcheck.cfg_text(2, "Mains", "Items", emit=False, invariants=["IncludeIsInlining"], props=[], fs="FS7", basedir="W", extra_consts="CONSTRAINT EmitI\n")
